@@ -221,22 +221,24 @@ class Obligations:
     def _refine(self, assumptions, neg, margin, budget):
         lhs, rhs, scaled, unit = margin
         M = z3.Real("M!scale")
-        s = self._solver(assumptions, min(budget, 20000))
-        s.add(neg, M > 0)
-        for x in scaled:
-            if zx.is_z(x):
-                s.add(x <= M, x >= -M)
-        for x in unit:
-            if zx.is_z(x):
-                s.add(x >= 0, x <= 1)
         d = zx.Z(zx.to_real(lhs)) - zx.Z(zx.to_real(rhs))
-        s.add(z3.Or(d >= M / 1000, d <= -M / 1000))
-        try:
-            if s.check() == z3.sat:
-                self.extra["refined_cex"] = self.extra.get("refined_cex", 0) + 1
-                return s.model()
-        except Exception:
-            pass
+        # the largest relative violation first; 1e-6 is still ten times the relative tolerance of the replays
+        for frac in (1000, 1000000):
+            s = self._solver(assumptions, min(budget, 20000))
+            s.add(neg, M > 0)
+            for x in scaled:
+                if zx.is_z(x):
+                    s.add(x <= M, x >= -M)
+            for x in unit:
+                if zx.is_z(x):
+                    s.add(x >= 0, x <= 1)
+            s.add(z3.Or(d >= M / frac, d <= -M / frac))
+            try:
+                if s.check() == z3.sat:
+                    self.extra["refined_cex"] = self.extra.get("refined_cex", 0) + 1
+                    return s.model()
+            except Exception:
+                pass
         return None
 
     def _dump(self, name, assumptions, neg, result):
